@@ -269,7 +269,27 @@ impl DiskDevices {
             .mount_points
             .sort_by_key(|(p, _)| cmp::Reverse(p.component_count()));
 
+        #[cfg(pkolaczk_fclones_verif)]
+        result.verif_pin_disk_kind(pool_sizes);
+
         result
+    }
+
+    /// Verification hook: when `FCLONES_VERIF_DISK_KIND` is set to `ssd`, `hdd` or `unknown`,
+    /// all detected devices are treated as devices of that kind, so that the code paths
+    /// specific to a device type can be exercised regardless of the host hardware.
+    #[cfg(pkolaczk_fclones_verif)]
+    fn verif_pin_disk_kind(&mut self, pool_sizes: &HashMap<OsString, Parallelism>) {
+        let kind = match std::env::var("FCLONES_VERIF_DISK_KIND").as_deref() {
+            Ok("ssd") => DiskKind::SSD,
+            Ok("hdd") => DiskKind::HDD,
+            Ok("unknown") => DiskKind::Unknown(-1),
+            _ => return,
+        };
+        for d in self.devices.iter_mut() {
+            d.disk_kind = kind;
+            d.parallelism = Self::get_parallelism(&d.name, kind, pool_sizes);
+        }
     }
 
     /// Returns the mount point holding given path
